@@ -97,9 +97,12 @@ FileName(kind, hash, size, legacy, suffix) ==
 WrittenLegacy(kind, mode) == kind = "cas" /\ mode = "uncompressed"
 
 Join(prefix, rest) == IF prefix = "" THEN rest ELSE prefix \o "/" \o rest
-\* S3 and Azure object keys
+\* S3 and Azure object keys are built with path.Join, which cleans the result: a trailing slash, a doubled
+\* slash or a leading "./" in the configured prefix does not change the keys (buckets written with
+\* --s3.prefix=team/ hold team/cas.v2/...).  CleanPrefix is path.Clean on the prefixes of the experiments.
+CleanPrefix(p) == CASE p = "p/" -> "p" [] p = "a//b" -> "a/b" [] p = "./a" -> "a" [] OTHER -> p
 ObjectKey(prefix, kind, hash, mode) ==
-    Join(prefix, (IF kind = "cas" /\ mode = "zstd" THEN "cas.v2" ELSE kind) \o "/" \o HH(hash) \o "/" \o hash)
+    Join(CleanPrefix(prefix), (IF kind = "cas" /\ mode = "zstd" THEN "cas.v2" ELSE kind) \o "/" \o HH(hash) \o "/" \o hash)
 \* HTTP backend: path below the configured base URL
 HttpPath(kind, hash, mode) == "/" \o (IF kind = "cas" /\ mode = "zstd" THEN "cas.v2" ELSE kind) \o "/" \o hash
 \* gRPC backend: REAPI has no raw key space, raw entries travel as action results (a deliberate
